@@ -303,7 +303,7 @@ func (c *Ctx) ruleKeyMatch(specs []walkerSpec) {
 				if !ok || len(r.Results) == 0 {
 					return
 				}
-				for _, v := range phiInputs(r.Results[0]) {
+				for _, v := range phiInputs(resultOf(r, 0)) {
 					if isNilConst(v) {
 						continue
 					}
@@ -320,7 +320,7 @@ func (c *Ctx) ruleKeyMatch(specs []walkerSpec) {
 							}
 						}
 					}
-					if _, isPhi := r.Results[0].(*ssa.Phi); isPhi {
+					if _, isPhi := resultOf(r, 0).(*ssa.Phi); isPhi {
 						// attribute to the defining block of the value
 						if vi, ok := v.(ssa.Instruction); ok {
 							targets = append(targets, vi)
@@ -346,14 +346,14 @@ func (c *Ctx) ruleKeyMatch(specs []walkerSpec) {
 			case "found-return":
 				// return of a non-nil proof-node list with nil error that is not the result of recursion
 				r, ok := in.(*ssa.Return)
-				if !ok || len(r.Results) != 2 || !isNilConst(r.Results[1]) {
+				if !ok || len(r.Results) != 2 || !isNilConst(resultOf(r, 1)) {
 					return
 				}
-				if isNilConst(r.Results[0]) {
+				if isNilConst(resultOf(r, 0)) {
 					return
 				}
 				rec := false
-				for v := range backwardSlice(r.Results[0], nil) {
+				for v := range backwardSlice(resultOf(r, 0), nil) {
 					if call, ok := v.(*ssa.Call); ok {
 						if cal := call.Call.StaticCallee(); cal != nil && cal.Name() == "walk" {
 							rec = true
